@@ -42,8 +42,9 @@ ASSUMPTIONS = [
     "int64 arithmetic is exact (checked: the code's binomials and integer powers are exact)",
     "float classes: 2-norm condition number <= 50 (bulk) or <= 1e4 (stressed, tolerance "
     "1e-7); residuals are relative to the product of the images' norms",
-    "gln_adjoint / sln_adjoint called without dtype return object-dtype arrays of floats "
-    "(their `like` is a function); values are compared after casting (diagnostic, DESIGN C17)",
+    "gln_adjoint / sln_adjoint called without dtype returned object-dtype arrays of floats on "
+    "the pinned tree (their `like` was a function; repaired as F51, found through C05/C12); "
+    "values are compared after casting either way",
     "o_to_pgl is judged on single matrices only (the property makes no array claim for it; "
     "its docstring says so); stacked input is a diagnostic",
     "recovery of A from its SO(2,1) image is judged when min(|a|,|d|) >= 0.05 (bulk) and, "
